@@ -100,8 +100,8 @@ def build_inputs(bits):
     for n in NODES:
         fields[n].append("v: Int")
     sdl = "\n".join(f"input {n} {{ {' '.join(fields[n])} }}" for n in NODES)
-    sdl += "\nenum E1 { X1 Y1 }\nenum E2 { X2 }\nenum E3 { X3 }\nenum E4 { X4 }\nenum E5 { X5 }\n"
-    sdl += "interface IObj { nested: Nest }\ntype Obj implements IObj { e3: E3 nested: Nest alt: IObj }\ntype Nest { e4: [E4] }\n"
+    sdl += "\nenum E1 { X1 Y1 }\nenum E2 { X2 }\nenum E3 { X3 }\nenum E4 { X4 }\nenum E5 { X5 }\nenum E6 { X6 }\n"
+    sdl += "interface IObj { nested: Nest }\ntype Obj implements IObj { e3: E3 e6: E6 nested: Nest alt: IObj }\ntype Nest { e4: [E4] }\n"
     sdl += "type Query { f(a: A, c: C, d: D, e: E5): Obj }\n"
     vars_, args = [], []
     needed_enums = set()
@@ -133,6 +133,10 @@ def build_inputs(bits):
             frag = "\nfragment Fr on Obj { nested { e4 } }"
         needed_enums.add("E4")
     q = f"query Q{'(' + ', '.join(vars_) + ')' if vars_ else ''} {{ f{'(' + ', '.join(args) + ')' if args else ''} {{ {sel} }} }}{frag}"
+    if e["res_e3"] and e["bc"]:
+        # a LATER operation whose result uses an enum an earlier operation already uses (E3) plus one used nowhere else (E6)
+        q += "\nquery Q2 { f { e3 e6 } }"
+        needed_enums.add("E6")
     needed_inputs = set()
     todo = list(start)
     while todo:
@@ -189,7 +193,7 @@ def run_case(bits, all_inputs: bool, all_enums: bool):
                 f.write(src)
         sys.path.insert(0, base)
         try:
-            for m in ["", ".client", ".input_types", ".enums", ".q"] + ([".fragments"] if "fragments.py" in pruned["files"] else []):
+            for m in ["", ".client", ".input_types", ".enums", ".q"] + ([".q_2"] if "q_2.py" in pruned["files"] else []) + ([".fragments"] if "fragments.py" in pruned["files"] else []):
                 importlib.import_module(name + m)
         except Exception as e:
             return False, f"pruned package does not load: {type(e).__name__}: {str(e)[:150]}"
